@@ -36,6 +36,7 @@ def one(d):
         t = time.time()
         rcs, outs = sh("python3 %s/tools/baseline.py %s" % (ROOT, wt))
         head = sh("git -C /repo rev-parse --short HEAD")[1].strip()
+        meta = json.load(open(meta_path)) if os.path.exists(meta_path) else meta  # re-read: eval_mutant may have written meanwhile
         meta["suite_with_patch"] = {"all_stable_pass_tests_pass": rcs == 0, "tail": outs[-600:], "wall_s": round(time.time() - t),
                                     "repo_head": head}
         json.dump(meta, open(meta_path, "w"), indent=1)
